@@ -17,6 +17,7 @@
 # -----------------------------------------------------------------------------
 import asyncio as aio
 import logging
+import struct
 import aiohttp
 import json
 import abc
@@ -104,7 +105,11 @@ class NdnDpdkUdpFace(NdnDpdkFace):
             self.transport = transport
 
         def datagram_received(self, data: bytes, _addr: tuple[str, int]):
-            typ, _ = enc.parse_tl_num(data)
+            try:
+                typ, _ = enc.parse_tl_num(data)
+            except (IndexError, struct.error):
+                logging.getLogger(__name__).warning('Unable to decode received datagram')
+                return
             aio.create_task(self.callback(typ, data))
 
         def send(self, data):
